@@ -633,7 +633,8 @@ def run_history(case, allow_kf_pattern=False):
             if tag in ("relabel", "rename") and not allow_kf_pattern:
                 ds_ = inplace_dims(x)
                 target = x.axes[ds_[k % len(ds_)]]
-                if any(member_of_live_group(pool, ax) for ax in ([target] if tag == "rename" or (m % 5) != 2 else list(x.axes))):
+                touches_all = (tag == "rename" and m % 3 == 1) or (tag == "relabel" and m % 5 == 2)     # x.dims = ... / x.labels = ...
+                if any(member_of_live_group(pool, ax) for ax in (list(x.axes) if touches_all else [target])):
                     excluded += 1     # KF-D25 pattern, generated separately (see witnesses)
                     continue
             _IN_USE.clear()
